@@ -110,7 +110,9 @@ def gram (n : Nat) : G :=
     .node kStatDo (seqs [kw "do", chunk, hard (kw "end")]),
     .node kStatWhile (seqs [kw "while", hard exp, hard (kw "do"), chunk, hard (kw "end")]),
     .node kStatRepeat (seqs [kw "repeat", chunk, hard (kw "until"), hard exp]),
-    .node kStatIfShort (seqs [kw "if", opt exp, .notAhead (kw "then"), .notAhead (kw "do"), .prevTokIs (.exact .symbol (b ")")),
+    -- (the implementation reads `exp.value` of the condition: only an `ExpValue` — a parenthesised expression or a call — gets
+    -- through; for `if #f(x) y=1` or `if (a)+f(b) y=1` it raises AttributeError: no short-if, and the long form then demands `then`)
+    .node kStatIfShort (seqs [kw "if", opt (.filterTop [kExpValue] exp), .notAhead (kw "then"), .notAhead (kw "do"), .prevTokIs (.exact .symbol (b ")")),
         .fence (seqs [chunk, opt (seqs [kw "else", chunk])])]),
     .node kStatIf (seqs [kw "if", opt exp, alts [kw "do", hard (kw "then")], chunk,
         .star (seqs [kw "elseif", opt exp, hard (kw "then"), chunk]),
